@@ -20,6 +20,8 @@ Spec run (model independent, Fractions on the exact rationals denoted by the dou
   * class PSD: status 2 only if the LCP has no solution (exact enumeration of the 2^n complementary bases, and
     of all C(2n,n) bases of [I,-M] when a complementary basis matrix is singular), default tolerances;
   * general class: only the first clause (solvable-but-ray cases are counted).
+  The completeness clauses are theorems of Properties/C11.lean in exact arithmetic (tolerances 0); the spec run
+  checks them on the real code at its default tolerances.
 Generators: corpus (harness/corpus/c11_*.json) first, the test-suite instances, random classes x data kinds,
 degenerate 0/+-1 problems, n in 7..10 (5%), int64 arrays, small max_iter, three tolerance settings, bad d.
 """
